@@ -483,15 +483,25 @@ class ShimNP:
                 res[idx] = a[idx] / b[idx]
         return res
 
-    def minimum(self, a, b):
-        if not has_sym(a) and not has_sym(b):
-            return _wrap_result(_np.minimum(conc(a), conc(b)))
-        return _elementwise(smin, a, b)
+    @staticmethod
+    def _into(out, res):
+        # numpy's out= argument: the result is written into (and returned as) the caller's array
+        if out is None:
+            return res
+        if isinstance(out, _np.ndarray):
+            out[...] = res
+            return out
+        return res  # a scalar `out` cannot be written: numpy would raise; the harness only needs the value
 
-    def maximum(self, a, b):
+    def minimum(self, a, b, out=None):
         if not has_sym(a) and not has_sym(b):
-            return _wrap_result(_np.maximum(conc(a), conc(b)))
-        return _elementwise(smax, a, b)
+            return self._into(out, _wrap_result(_np.minimum(conc(a), conc(b))))
+        return self._into(out, _elementwise(smin, a, b))
+
+    def maximum(self, a, b, out=None):
+        if not has_sym(a) and not has_sym(b):
+            return self._into(out, _wrap_result(_np.maximum(conc(a), conc(b))))
+        return self._into(out, _elementwise(smax, a, b))
 
     def clip(self, a, lo, hi, **k):
         if not has_sym(a) and not has_sym(lo) and not has_sym(hi):
